@@ -509,7 +509,27 @@ def run_mg1(r, case, g):
         r.viol("samples_not_from_density", "MG1Uniform samples are not uniform on its support", ks=Dmax, inside=ok)
     else:
         r.cell("mg1_uniform", "samples")
-    r.count("mean_checks", 0)
+    # the mean it reports (torch's `mean` attribute of a distribution) against the expectation under its own density: the support
+    # is the sheared box {theta1 in [l1, h1], theta2 - theta1 in [l2, h2], theta3 in [l3, h3]}, uniform in those coordinates
+    r.ev()
+    r.count("mean_checks")
+    mid = ((low + high) / 2).double()
+    want = torch.stack([mid[0], mid[0] + mid[1], mid[2]])
+    try:
+        got = torch.as_tensor(m.mean).double().reshape(-1)
+    except Exception as e:
+        got = None
+        r.count("mean_not_offered")
+    if got is not None:
+        emp = s.double().mean(0)
+        se = s.double().std(0) / NS ** 0.5
+        merr = float((got - want).abs().max())
+        r.worst("mean_err/tol", merr / 1e-5)
+        if got.shape != want.shape or merr > 1e-5 * (1 + float(want.abs().max())) or bool(((got - emp).abs() > 8 * se + 1e-6).any()):
+            r.viol("mean_wrong", "MG1Uniform.mean is not the expectation under its own density", reported=got.tolist(),
+                   expectation=want.tolist(), sample_mean=emp.tolist())
+        else:
+            r.cell("mg1_uniform", "mean")
     r.sample({"mg1_high": high.tolist()})
 
 
@@ -531,6 +551,28 @@ def run_kde(r, case, g):
             _judge_int(r, "gaussian_kde", I2, est, 2e-3, 1e-2, [D], {"N": N})
     except Exception as e:
         r.viol("log_prob_raises", "gaussian_kde_log_eval raises", exc=repr(e)[:200], N=N, D=D)
+    # single precision, data far from the origin relative to the bandwidth (unnormalised features): the log-density must be what
+    # the same samples give in double precision (differences of nearby numbers are exact; anything that expands |q - s|^2 loses it)
+    for off in (0.0, 1000.0, 5000.0):
+        for Nk in (40, 400):
+            sm = (torch.randn(Nk, D, generator=g) + off).float()
+            qs = (torch.randn(30, D, generator=g) * 0.8 + off).float()
+            try:
+                with torch.no_grad():
+                    a32 = tu.gaussian_kde_log_eval(sm, qs[:, None, :])
+                    a64 = tu.gaussian_kde_log_eval(sm.double(), qs.double()[:, None, :])
+            except Exception as e:
+                r.viol("log_prob_raises", "gaussian_kde_log_eval raises", exc=repr(e)[:200], N=Nk, D=D, offset=off)
+                continue
+            r.ev()
+            r.count("kde_precision_twins")
+            errk = float((a32.double() - a64).abs().max())
+            r.worst("kde_f32_vs_f64/1e-3", errk / 1e-3)
+            if not errk <= 1e-3:
+                r.viol("not_normalised", "gaussian_kde_log_eval in single precision departs from its double-precision value for data far "
+                       "from the origin", err=errk, offset=off, N=Nk, D=D)
+            else:
+                r.cell("gaussian_kde", "f32_twin", off, Nk, D)
     r.count("sampling_checks", 0)
     r.count("mean_checks", 0)
     r.sample({"kde": {"N": N, "D": D}})
